@@ -16,6 +16,7 @@
 #include <cstdio>
 #include <cstdlib>
 #include <cstring>
+#include <ctime>
 #include <fcntl.h>
 #include <fstream>
 #include <set>
@@ -35,6 +36,7 @@ struct Args {
     long cases = 100;
     int maxsize = 100;
     long shrink_budget = 4000;
+    long max_seconds = 900; ///< wall-clock limit of --minimize (affects only how small the replay gets, never the verdict)
 };
 
 struct Stats {
@@ -393,6 +395,7 @@ int run_minimize(const Args &a) {
         return base == 0 ? 0 : 2;
     }
     long budget = a.shrink_budget;
+    const time_t t_end = time(nullptr) + a.max_seconds;
     Tape cur = canonicalise(t);
     if (run_forked(ctx, cur) != base) cur = t;
     bool progress = true;
@@ -400,6 +403,10 @@ int run_minimize(const Args &a) {
         progress = false;
         Candidates c(cur);
         while (budget > 0) {
+            if (time(nullptr) > t_end) {
+                budget = 0;
+                break;
+            }
             auto m = c();
             if (!m) break;
             --budget;
@@ -456,6 +463,7 @@ int main(int argc, char **argv) {
         else if (k == "--cases") a.cases = atol(val().c_str());
         else if (k == "--maxsize") a.maxsize = atoi(val().c_str());
         else if (k == "--shrink-budget") a.shrink_budget = atol(val().c_str());
+        else if (k == "--max-seconds") a.max_seconds = atol(val().c_str());
         else {
             fprintf(stderr, "unknown argument %s\n", k.c_str());
             return 2;
